@@ -22,7 +22,7 @@ CONFIG = {
 }
 REQUIRED_CLASSES = {"quick": ["different-block-counts", "has-ignore", "has-default", "has-custom-accepted", "chi-nonzero"],
                     "thorough": ["different-block-counts", "has-ignore", "has-default", "has-custom-accepted", "chi-nonzero"]}
-KINDS = ("N", "Sz", "site", "orbital", "linear", "single", "product")
+KINDS = ("N", "Sz", "site", "orbital", "linear", "single", "packed", "product")
 
 
 @st.composite
